@@ -65,6 +65,11 @@ def fmt_kind(value):
     if isinstance(value, ast.JoinedStr):
         lits = "".join(v.value if isinstance(v, ast.Constant) else "%s" for v in value.values)
         return {"#%s": "#id", ".%s": ".class", "%s.%s": "type.class"}.get(lits)
+    if isinstance(value, ast.Call) and isinstance(value.func, ast.Attribute) and value.func.attr == "format" and isinstance(value.func.value, ast.Constant) \
+            and isinstance(value.func.value.value, str) and not value.keywords:
+        import re as _re
+        f = _re.sub(r"\{\d*\}", "%s", value.func.value.value)
+        return {"#%s": "#id", ".%s": ".class", "%s.%s": "type.class"}.get(f)
     if isinstance(value, ast.BinOp) and isinstance(value.op, ast.Add):
         src = ast.unparse(value)
         if src.startswith("'#' +"):
